@@ -1,6 +1,6 @@
 #!/usr/bin/env python3
 """Write the task files for a round of seeding sub-agents and create their worktrees.
-usage: genseedprompts.py <round-tag> <style>   (style: small | improve | feature)
+usage: genseedprompts.py <round-tag> <style>   (style: small | improve | feature | refactor)
 Writes /tmp/prompt<tag>-Cxx.txt, creates /tmp/wt<tag>-Cxx (worktree of /repo HEAD) and /tmp/seed<tag>-Cxx/.
 The task text contains the property and the summaries of earlier seeds, nothing else of /verif."""
 import json, glob, os, subprocess, sys
@@ -20,6 +20,7 @@ env = ("Every shell command needs this prefix, because the sandbox has no networ
 styles = {
  'small': "This time keep the change SMALL AND LOCAL: at most a handful of changed lines, no new helper functions, no restructuring - the kind of diff that slips through review because it is so small: a changed operator or constant, a condition weakened or strengthened slightly, two statements swapped, an argument replaced by another variable of the same type, an early return or 'continue' added for a 'cannot matter' case, a default changed, a library call replaced by a near-synonym (Clean/Abs, Lstat/Stat, HasPrefix/Contains, TrimPrefix/TrimLeft, Same/==, >=/>), an error check dropped or narrowed, a lock released a line earlier.",
  'feature': "This time the defect should come in AS A SIDE EFFECT OF ADDING SOMETHING - the kind of commit whose message says 'add option X', 'support Y', 'expose Z', 'report progress', 'allow callers to ...': a new option, field, callback, accessor, source type, file kind or code path (10-80 lines, mostly new code, with its own doc comments and, if you like, its own passing test inside the patch), written the way a contributor would write it - and in threading it through the existing code something the property relies on is disturbed: a check now sits behind the new branch, an existing call gets the new value instead of the old one, a shared helper is generalised and loses a guard, state is shared that used to be per call, an ordering changes, a default is computed differently. IMPORTANT: the violation must be observable with calls and options that existed BEFORE your change (callers who never heard of the new feature are affected); a defect that only shows when the new option is switched on does not count.",
+ 'refactor': "This time the defect should hide inside a REFACTORING - the kind of commit whose message says 'refactor: no functional change', 'extract helper', 'split X into smaller functions', 'simplify control flow', 'dedupe', 'tidy up' (15-100 changed lines): a long function split into helpers that take what they need as parameters, a closure turned into a method on a small struct, an if/else chain turned into a switch or early returns, a flag variable removed, two similar code paths unified behind one helper, a loop restructured, a helper inlined into its callers, a value threaded through a new small type. The refactoring must look clean and deliberate, as a maintainer would do it - and in moving the code something the property relies on changes: a check lands after the operation it used to precede, a helper is called with a neighbouring variable, an early return skips a step that used to run on that path, a condition is simplified to something almost equivalent, a unified helper applies one path's rule to the other, a default or zero value replaces what used to be computed, an error that used to be wrapped or returned is now dropped or replaced. No new feature, option or exported API: only restructuring.",
  'improve': "This time the change should be a WELL-MEANT IMPROVEMENT that goes slightly wrong - the kind of commit whose message says 'speed up', 'simplify', 'be more tolerant', 'harden', 'support X', 'avoid duplicate work', 'clean up': a fast path or early exit for a common case, a cache or memo of something that is not quite invariant, an extra normalisation applied on one side only, a tolerance for a 'harmless' error, a stricter check that also rejects something legitimate, two code paths merged into a shared helper whose contract fits one of them only, a loop restructured, work moved before or after a lock/flush/close, a new small option or parameter with a default that changes an old behaviour in a corner. It may add a helper function or restructure one function, but keep the diff reviewable (roughly 10-60 changed lines) and write it the way a maintainer would, with the comments and the commit-message-style justification a maintainer would give.",
 }
 for pid, d in props.items():
